@@ -312,4 +312,65 @@ theorem addSolutionPath_fresh (zero minusOne : D) (lt : D → D → Bool) (bette
       getSolutionDifference lt better minusOne (addSolutionPath zero pd path a d) = (if a then d else zero) := by
   simp [hasApproximateSolution, getSolutionDifference, addSolutionPath, hempty, top]
 
+/-! ### the shared approximate-solution bookkeeping -/
+
+structure TrackerInv {M : Type} (goalDist : M → D) (lt : D → D → Bool) (threshold : D) (seen : List M)
+    (t : Tracker M D) : Prop where
+  sol : ∀ m, t.solution = some m → m ∈ seen ∧ lt (goalDist m) threshold = true ∧ t.approxdif = goalDist m
+  approx : t.solution = none → ∀ m, t.approxsol = some m →
+    m ∈ seen ∧ lt (goalDist m) threshold = false ∧ t.approxdif = goalDist m
+  /-- without an exact solution nothing seen so far satisfies the goal -/
+  none_sat : t.solution = none → ∀ m ∈ seen, lt (goalDist m) threshold = false
+
+theorem tracker_observe_inv {M : Type} (goalDist : M → D) (lt : D → D → Bool) (threshold : D) (seen : List M)
+    (t : Tracker M D) (m : M) (h : TrackerInv goalDist lt threshold seen t) :
+    TrackerInv goalDist lt threshold (seen ++ [m]) (t.observe goalDist lt threshold m) := by
+  unfold Tracker.observe
+  split
+  · next x hx =>
+    refine ⟨fun y hy => ?_, fun hn => by rw [hx] at hn; simp at hn, fun hn => by rw [hx] at hn; simp at hn⟩
+    obtain ⟨a, b, c⟩ := h.sol y hy
+    exact ⟨List.mem_append_left _ a, b, c⟩
+  · next hnone =>
+    simp only
+    split
+    · next hsat =>
+      refine ⟨fun y hy => ?_, fun hn => by simp at hn, fun hn => by simp at hn⟩
+      simp only [Option.some.injEq] at hy
+      subst hy
+      exact ⟨by simp, hsat, rfl⟩
+    · next hsat =>
+      have hsat' : lt (goalDist m) threshold = false := by simpa using hsat
+      split
+      · refine ⟨fun y hy => by simp [hnone] at hy, fun _ y hy => ?_, fun _ x hx => ?_⟩
+        · simp only [Option.some.injEq] at hy
+          subst hy
+          exact ⟨by simp, hsat', rfl⟩
+        · simp only [List.mem_append, List.mem_singleton] at hx
+          rcases hx with hx | rfl
+          · exact h.none_sat hnone x hx
+          · exact hsat'
+      · refine ⟨fun y hy => by rw [hnone] at hy; simp at hy, fun _ y hy => ?_, fun _ x hx => ?_⟩
+        · obtain ⟨a, b, c⟩ := h.approx hnone y hy
+          exact ⟨List.mem_append_left _ a, b, c⟩
+        · simp only [List.mem_append, List.mem_singleton] at hx
+          rcases hx with hx | rfl
+          · exact h.none_sat hnone x hx
+          · exact hsat'
+
+theorem tracker_run_inv {M : Type} (goalDist : M → D) (lt : D → D → Bool) (threshold inf : D) (ms : List M) :
+    TrackerInv goalDist lt threshold ms (ms.foldl (fun t m => t.observe goalDist lt threshold m) ⟨none, none, inf⟩) := by
+  have gen : ∀ (ms seen : List M) (t : Tracker M D), TrackerInv goalDist lt threshold seen t →
+      TrackerInv goalDist lt threshold (seen ++ ms) (ms.foldl (fun t m => t.observe goalDist lt threshold m) t) := by
+    intro ms
+    induction ms with
+    | nil => intro seen t h; simpa using h
+    | cons m rest ih =>
+      intro seen t h
+      have := ih (seen ++ [m]) _ (tracker_observe_inv goalDist lt threshold seen t m h)
+      simpa using this
+  have h0 : TrackerInv goalDist lt threshold [] (⟨none, none, inf⟩ : Tracker M D) :=
+    ⟨fun m hm => by simp at hm, fun _ m hm => by simp at hm, fun _ m hm => by simp at hm⟩
+  simpa using gen ms [] _ h0
+
 end OmplModel.PlannerReport
